@@ -313,7 +313,7 @@ def work(shard, seed, tier):
         fails, nt, cls, key = run_case(case)
         return Outcome(fails, nontrivial=nt, classes=["rand"] + cls, key=key, sample=case)
 
-    campaign(acc, _strategy(), execute, n, seed * 1000 + shard["i"], budget=Budget(30 if tier == "quick" else 500))
+    campaign(acc, _strategy(), execute, n, seed * 1000 + shard["i"], budget=Budget(120 if tier == "quick" else 900))
     return acc
 
 
